@@ -102,10 +102,17 @@ CHECKS += [
      "note": MC_NOTE},
 ]
 
+CHECKS += [
+    {"id": "C10", "engine": "E1-small-scope", "level": "exploration", "design_ref": "DESIGN.md §3 C10",
+     "technique": "bounded exhaustive enumeration of lengths / alignments / segment lists x the 3x3x2 policy grid x lobes against an oracle written from the documentation's prose; directory-level command runs over generated directories",
+     "text": "fixed: every T<=8, length, lobe 0..3, window, validity, in_lens given/omitted; ali: every alignment over {0,1}^T and {0,1,2}^T, T<=5, every length incl. == T; ref: every list of <=3 segments over a boundary menu, in_lens/other_lens given or omitted; windows must be exactly the prescribed ones, in order, labelled by source, inside the sequence when valid-only. Token chunking on the same lists x every slice in [-2,6]^2 x partial x retain. chunk-torch-spect-data-dir over generated directories: each chunk equals the source restricted to its window and the output validates.",
+     "note": E1_NOTE + " Known finding F6 (boundaries shifted by +start instead of -start; an unedited repository test hard-codes it) is printed as KNOWN-FINDING (F6a-c)."},
+]
+
 _PENDING = "check under construction in this session; not yet claimed"
 NOT_APPLICABLE = [
     {"property_id": p, "reason": _PENDING}
-    for p in ["C10", "C13", "C14"]
+    for p in ["C13", "C14"]
 ]
 
 NOTES = ("All checks are bounded-exhaustive explorations of the real implementation (model-checking family); "
